@@ -88,7 +88,15 @@ def build_sklearn(spec, table=None):
     info = table[name]
     params = dict(info["defaults"])
     params.update(spec.get("params") or {})
-    return _import(info["mod"], name)(**params)
+    est = _import(info["mod"], name)(**params)
+    if spec.get("prefit") is not None:
+        # an estimator the caller has trained already before wrapping it
+        import warnings
+        pf = spec["prefit"]
+        with warnings.catch_warnings():
+            warnings.simplefilter("ignore")
+            est.fit(np.array(pf["X"], dtype=float), np.array(pf["y"]))
+    return est
 
 
 def sk_info(name):
